@@ -119,6 +119,7 @@ def PARSE_ERROR(text):
 
 @contract(_GS + "generate_stub_data", props=["C02", "C03", "C04", "C09", "C10", "C16", "C17"])
 class generate_stub_data_c:
+    deductive = False
     safety = False
     modifies = ["*"]
 
